@@ -338,6 +338,50 @@ def r3_options(ctx, F):
     ctx.floor("ExecutionOptions-literals", n, 2)
 
 
+def r3b_limit_stored(ctx, F):
+    """ExecutionOptions::new stores the caller's limit unchanged (u32::MAX when None) on every accepting path, and the accessor
+    returns the stored field"""
+    from .mirsym import Interp, Term, Agg, Ptr, enumerate_paths, Unanalysable, PanicReached
+    new = F.fn(r"^miden_air::options::ExecutionOptions::new$")
+    adt = F.adt(r"^miden_air::options::ExecutionOptions$")
+    fields = [f["name"] for f in adt["variants"][0]["fields"]]
+    for given in (True, False):
+        arg = Agg([Term("m")], "adt", "core::option::Option", "Some") if given else Agg([], "adt", "core::option::Option", "None")
+
+        def mk():
+            I = Interp(F)
+            I.havoc = True
+            return I
+        n_ok = 0
+        for I, res, exc in enumerate_paths(mk, lambda I: I.call(new.id, [arg, Term("e"), Term("t")]), max_paths=32):
+            if exc is not None:
+                if isinstance(exc, Unanalysable):
+                    ctx.violation("UNANALYSABLE|ExecutionOptions::new", new.loc(), str(exc)[:300])
+                continue
+            if not (isinstance(res, Agg) and res.variant == "Ok"):
+                continue
+            n_ok += 1
+            got = dict(zip(fields, res.items[0].items))
+            want = "m" if given else str(2**32 - 1)
+            ctx.inst(key="stored-limit|given=%s|%d" % (given, n_ok), nontrivial=True)
+            ok = repr(got["max_cycles"]) == want or (not given and re.match(r"^max\(4294967295, .*\)$|^max\(.*, 4294967295\)$", repr(got["max_cycles"])) is not None)   # max(u32::MAX, x) = u32::MAX
+            ctx.oblig(ok)
+            ctx.sample({"max_cycles_argument": "Some(m)" if given else "None", "stored": {k: repr(v)[:60] for k, v in got.items()}})
+            if not ok:
+                ctx.violation("options-limit-altered|given=%s" % given, new.loc(), "ExecutionOptions::new(%s, e, _) stores max_cycles = %s instead of %s: the enforced limit differs from the requested one"
+                              % ("Some(m)" if given else "None", got["max_cycles"], want))
+        if n_ok == 0:
+            ctx.violation("options-no-accepting-path|given=%s" % given, new.loc(), "no accepting path of ExecutionOptions::new could be analysed")
+    acc = F.fn(r"^miden_air::options::ExecutionOptions::max_cycles$")
+    v = Agg([Term(n) for n in fields], "adt", adt["id"], adt["variants"][0]["name"])
+    r = Interp(F).call(acc.id, [Ptr([v], 0)])
+    ctx.inst(key="accessor", nontrivial=True)
+    ok = repr(r) == "max_cycles"
+    ctx.oblig(ok)
+    if not ok:
+        ctx.violation("options-accessor", acc.loc(), "ExecutionOptions::max_cycles() returns %s" % (r,))
+
+
 def run(ctx, F):
     ctx.trusted += ["rustc MIR construction and Instance::try_resolve (nightly)", "mirfacts driver", "vlib rule layer"]
     ctx.assumptions += ["external crates (winterfell, miden-crypto) are not analysed",
@@ -347,4 +391,5 @@ def run(ctx, F):
     ctx.run_rule("C15-R2", "every decoder row is paired with exactly one execute_op; execute_op advances the clock exactly once; handlers only via execute_op", r2_every_cycle, F)
     ctx.run_rule("C15-R2b", "decoder wrappers run one execute_op per row", r2b_calls_in_decoder, F)
     ctx.run_rule("C15-R2c", "every loop in a block executor executes an operation (bounded by the limit)", r2c_loops, F)
+    ctx.run_rule("C15-R3b", "ExecutionOptions::new stores the requested limit unchanged on every accepting path; the accessor returns it", r3b_limit_stored, F)
     ctx.run_rule("C15-R3", "ExecutionOptions::new has both rejecting comparisons dominating construction; no unvalidated literal", r3_options, F)
